@@ -490,6 +490,12 @@ impl Property for C14 {
             mesh.f.push([f[0], m, f[1]]);
             label.push_str("+zero-area-face");
         }
+        // an exactly repeated face (same three indices in the same order) is two faces
+        if rng.chance(0.1) {
+            let f = mesh.f[rng.below(mesh.f.len())];
+            mesh.f.push(f);
+            label.push_str("+repeated-face");
+        }
         // vertices no face refers to are legal; after renumbering they sit anywhere in the buffer
         let mut extra = 0;
         if rng.chance(0.3) {
@@ -934,6 +940,24 @@ impl Property for C14 {
             out.push(Sc { mesh: c, ..sc.clone() });
         }
         out
+    }
+
+    fn valid(&self, sc: &Sc) -> bool {
+        let nf = sc.mesh.f.len();
+        let idx_ok = |m: &M| m.f.iter().all(|f| f.iter().all(|&v| (v as usize) < m.v.len()) && f[0] != f[1] && f[1] != f[2] && f[0] != f[2]);
+        nf >= 1
+            && idx_ok(&sc.mesh)
+            && !sc.refs.is_empty()
+            && sc.refs.iter().all(|r| !r.f.is_empty() && idx_ok(r))
+            && sc.probe_faces.iter().all(|&f| f < nf)
+            && match &sc.start {
+                Start::Indices(v) => v.iter().all(|&f| f < nf),
+                _ => true,
+            }
+            && sc.ops.iter().all(|o| match &o.crit {
+                Crit::Near { reference, .. } => *reference < sc.refs.len(),
+                _ => true,
+            })
     }
 
     fn fingerprints(&self, sc: &Sc, _v: &Violation) -> Vec<String> {
